@@ -310,7 +310,10 @@ def load_known_findings():
 
 
 def write_evidence(pid, tier, seed, level, coverage, wall, violations, assumptions=()):
-    ensure_dir(os.path.join(VERIF, "evidence"))
+    # Runs against deliberately modified trees (tools/seedtest.sh) must not touch the evidence
+    # that describes the unchanged tree.
+    evdir = os.environ.get("VERIF_EVIDENCE_DIR") or os.path.join(VERIF, "evidence")
+    ensure_dir(evdir)
     ev = {
         "property_id": pid,
         "tier": tier,
@@ -322,7 +325,7 @@ def write_evidence(pid, tier, seed, level, coverage, wall, violations, assumptio
         "violations": violations,
         "tree": repo_tree_id(),
     }
-    with open(os.path.join(VERIF, "evidence", pid + ".json"), "w") as f:
+    with open(os.path.join(evdir, pid + ".json"), "w") as f:
         json.dump(ev, f, indent=1, sort_keys=True)
         f.write("\n")
 
